@@ -6,9 +6,17 @@ prove       RModel.Props.C17 (round-trip <-> guard for every schema/value; Schem
             the listed fields; conditional witnesses; full theorem under `planVerdict = true`)
 correspond  `serde plan|history <typed value>`: the real structs are built field by field in the harness, written
             with serde_json::to_string_pretty, decoded document + result of from_str compared with Serde.ser / Serde.de
-oracle      (in-process) every generated value must load again and re-serialise to the same document;
-            (CLI) plan -> apply <saved file> vs direct `rename -y` on an identical tree; rename -y, undo latest,
-            redo latest must be able to load the stored plan copy; replace --no-regex with an empty replacement
+oracle      (in-process) every generated value, written by write_plan / History::save, must parse to an equal value,
+            re-serialise to the same document, and come back through the code's own side-effect-free loaders
+            (status_operation for plan.json, History::load for history.json);
+            (CLI load matrix) plans of every planner that can be applied (plan, rename, replace literal + regex; `search`
+            stores nothing), written by the code (plan.json, --plan-out, a copied file, the stored copy under
+            .renamify/plans/<id>.json, history.json), read back through every loader: apply <file>, default apply, status,
+            history, undo <id>|latest, redo <id>|latest — each must accept what the code wrote and lead to the tree of
+            the direct command.  (`apply <id>` of a stored copy is refused by design once the id is in the history:
+            "History entry … already exists"; its loader is the same code path as redo's and is covered structurally.)
+structure   translator fact about loaders: every site that parses a Plan / Vec<HistoryEntry> from disk, and every
+            rejection depending on the parsed value after it (Gen.loaderSites / loaderConditions / loadersPlain)
 witnesses   the three recorded defects re-observed on the CLI; every field the schema check reports beyond the
             recorded ones is replayed on the real serde with the value built from it (-> VIOLATION)
 """
@@ -283,44 +291,142 @@ def stored_copy_problem(doc, root, before, after):
     return None
 
 
-def cli_saved_vs_direct(ctx, case):
-    """(a) plan -> saved copy -> apply <file>   vs   rename -y   on identical trees"""
+class Runner:
+    """runs CLI commands in one directory and keeps the concrete command sequence for the replay file"""
+    def __init__(self, root, log, label, scratch):
+        self.root, self.log, self.label, self.scratch = root, log, label, scratch
+
+    def __call__(self, argv):
+        rc, so, se = common.cli(argv, self.root)
+        self.log.append({"in": self.label, "argv": [a.replace(self.scratch, "<scratch>") for a in argv], "rc": rc,
+                         "stderr": se.decode("utf-8", "replace")[-300:].replace(self.scratch, "<scratch>")})
+        return rc, so, se
+
+
+def stored_id(root):
+    """id of the newest plan copy under .renamify/plans"""
+    d = os.path.join(root, ".renamify", "plans")
+    try:
+        files = sorted((f for f in os.listdir(d) if f.endswith(".json")), key=lambda f: os.path.getmtime(os.path.join(d, f)))
+        return files[-1][:-5] if files else None
+    except OSError:
+        return None
+
+
+def exercise_stored(ctx, run, root, before, after, info, use_latest, tag):
+    """After a direct command succeeded in `root`: the plan copy and the history it wrote are read back through every
+    loader the CLI offers — history, status, undo <id>, redo <id> — each of which must accept what the code wrote;
+    undo must give `before` back (checked by C01, counted here) and redo (= apply of the stored copy) must give `after`.
+    All preconditions of undo/redo hold in this sequence, so a refusal that leaves the tree untouched can only come
+    from loading the stored plan / history.  Returns a verdict or None."""
+    pid = stored_id(root)
+    info["stored_id"] = pid
+    doc = stored_plan_doc(root)
+    prob = stored_copy_problem(doc, root, before, after)
+    if prob is not None:
+        info["stored_copy_problem"] = prob
+    rc, so, se = run(["history"])
+    if rc != 0 or (pid and pid.encode() not in so):
+        return ("history-load", None)
+    rc, so, se = run(["status"])
+    if rc != 0:
+        return ("status-load", None)
+    target = "latest" if use_latest or not pid else pid
+    rcu, sou, seu = run(["undo", target])
+    undone = common.snapshot(root)
+    if rcu != 0 and is_load_error(seu):
+        return ("undo-load", known_for_cli(doc, seu))
+    if prob is not None:
+        return ("stored-copy", None)
+    if rcu != 0 and undone == after:
+        return ("undo-refused", None)
+    if rcu != 0:
+        ctx.count(f"cli:{tag}:undo_failed_midway")     # the tree was touched: restoring is C01's subject
+        return None
+    ctx.count(f"cli:{tag}:undo_ok")
+    if undone != before:
+        ctx.count(f"cli:{tag}:undo_tree_differs")      # C01's subject, recorded only
+        return None
+    rcr, sor, ser_ = run(["redo", target if target == "latest" else pid])
+    redone = common.snapshot(root)
+    if rcr != 0 and is_load_error(ser_):
+        return ("redo-load", known_for_cli(doc, ser_))
+    if rcr != 0 and redone == undone:
+        return ("redo-refused", None)
+    if rcr != 0:
+        ctx.count(f"cli:{tag}:redo_failed_midway")
+        return None
+    ctx.count(f"cli:{tag}:redo_ok")
+    if redone != after:
+        # redo applies the stored plan copy: it must have the effect the direct command had
+        info["tree_diff"] = common.snap_diff(after, redone)
+        return ("redo-tree", None)
+    # the history now holds three entries (apply, revert, redo): it must still load
+    rc, so, se = run(["history"])
+    if rc != 0:
+        return ("history-load", None)
+    return None
+
+
+LOAD_MODES = ["file", "default", "plan_out"]
+
+
+def cli_saved_vs_direct(ctx, case, mode="file", use_latest=True):
+    """(a) plan -> plan file written by the code -> apply (from a copied file / the default plan.json / a --plan-out
+    file)   vs   rename -y   on identical trees;   (b) the stored copy and history of the direct run"""
     with common.scratch() as d:
         t1, t2 = os.path.join(d, "t1"), os.path.join(d, "t2")
         os.makedirs(t1); os.makedirs(t2)
         common.materialize(t1, case["tree"]); common.materialize(t2, case["tree"])
         before = common.snapshot(t1)
+        seq = []
+        run1, run2 = Runner(t1, seq, "t1", d), Runner(t2, seq, "t2", d)
         extra = []
         if case["path_arg"]:
             extra = [case["path_arg"] if case["class"] == "relative_arg" else os.path.join(t1, case["path_arg"])]
-        rc, so, se = common.cli(["plan", case["search"], case["replace"]] + extra + ["--no-auto-init", "--quiet"], t1)
         plan_path = os.path.join(t1, ".renamify", "plan.json")
+        saved = os.path.join(d, "saved plan é.json")
+        if mode == "plan_out":
+            plan_path = saved
+            rc, so, se = run1(["plan", case["search"], case["replace"]] + extra + ["--plan-out", saved, "--no-auto-init", "--quiet"])
+        else:
+            rc, so, se = run1(["plan", case["search"], case["replace"]] + extra + ["--no-auto-init", "--quiet"])
         if rc != 0 or not os.path.exists(plan_path):
             ctx.count("cli:plan_failed")
             ctx.notes.append(f"plan failed ({case['class']}, {case['search']!r} -> {case['replace']!r}): exit {rc}: "
                              + se.decode("utf-8", "replace").strip()[-200:].replace(d, "<scratch>"))
             return None
-        saved = os.path.join(d, "saved plan é.json")
-        shutil.copy(plan_path, saved)
-        os.unlink(plan_path)
-        plan = json.load(open(saved))
+        plan = json.load(open(plan_path))
         size = len(plan["matches"]) + len(plan["paths"])
-        rc1, so1, se1 = common.cli(["apply", saved, "--no-auto-init", "--quiet"], t1)
+        info = {"class": case["class"], "load_mode": mode, "search": case["search"], "replace": case["replace"],
+                "path_arg": case["path_arg"], "tree": common.snap_digest(before), "tree_src": tree_src(case["tree"]),
+                "plan_size": size, "sequence": seq}
+        ctx.case(("cli-a", case["class"], mode, case["search"], case["replace"], sorted(case["tree"])), nontrivial=size > 0)
+        ctx.count("cli:a:" + case["class"])
+        ctx.count("cli:a:mode=" + mode)
+        verdict = None
+        if mode == "default":
+            # the pending plan is also what `status` reads
+            rcs, sos, ses = run1(["status"])
+            if rcs != 0 or plan["id"].encode() not in sos:
+                verdict = ("status-load", None)
+            rc1, so1, se1 = run1(["apply", "--no-auto-init", "--quiet"])
+        else:
+            if mode == "file":
+                shutil.copy(plan_path, saved)
+                os.unlink(plan_path)
+            rc1, so1, se1 = run1(["apply", saved, "--no-auto-init", "--quiet"])
         after1 = common.snapshot(t1)
         extra2 = []
         if case["path_arg"]:
             extra2 = [case["path_arg"] if case["class"] == "relative_arg" else os.path.join(t2, case["path_arg"])]
-        rc2, so2, se2 = common.cli(["rename", case["search"], case["replace"]] + extra2 + ["-y", "--no-auto-init", "--quiet"], t2)
+        rc2, so2, se2 = run2(["rename", case["search"], case["replace"]] + extra2 + ["-y", "--no-auto-init", "--quiet"])
         after2 = common.snapshot(t2)
-        info = {"class": case["class"], "search": case["search"], "replace": case["replace"], "path_arg": case["path_arg"],
-                "tree": common.snap_digest(before), "tree_src": tree_src(case["tree"]), "plan_size": size,
-                "empty_replace_hunks": sum(1 for m in plan["matches"] if "replace" not in m),
-                "empty_new_paths": sum(1 for r in plan["paths"] if "new_path" not in r), "apply_saved_rc": rc1, "direct_rc": rc2,
-                "apply_saved_stderr": se1.decode("utf-8", "replace")[-300:], "direct_stderr": se2.decode("utf-8", "replace")[-300:]}
-        ctx.case(("cli-a", case["class"], case["search"], case["replace"], sorted(case["tree"])), nontrivial=size > 0)
-        ctx.count("cli:a:" + case["class"])
-        verdict = None
-        if rc1 != 0 and is_load_error(se1):
+        info.update({"apply_saved_rc": rc1, "direct_rc": rc2, "apply_saved_stderr": se1.decode("utf-8", "replace")[-300:],
+                     "direct_stderr": se2.decode("utf-8", "replace")[-300:]})
+        if verdict is not None:
+            pass
+        elif rc1 != 0 and is_load_error(se1):
             # the saved plan could not be read back
             verdict = ("load", known_for_cli(plan, se1))
         elif (rc1 == 0) != (rc2 == 0):
@@ -330,35 +436,12 @@ def cli_saved_vs_direct(ctx, case):
             info["tree_diff"] = common.snap_diff(after2, after1)
         elif rc1 != 0:
             ctx.count("cli:a:both_fail")
-        # (b) the stored copy: undo / redo on the directly renamed tree
+        # (b) the stored copy + history: of the direct run, and of the run that applied the saved plan
         vb = None
         if rc2 == 0 and size > 0:
-            prob = stored_copy_problem(stored_plan_doc(t2), t2, before, after2)
-            if prob is not None:
-                info["stored_copy_problem"] = prob
-            rcu, sou, seu = common.cli(["undo", "latest"], t2)
-            info["undo_rc"], info["undo_stderr"] = rcu, seu.decode("utf-8", "replace")[-300:]
-            if rcu != 0 and is_load_error(seu):
-                vb = ("undo-load", known_for_cli(stored_plan_doc(t2), seu))
-            elif prob is not None:
-                vb = ("stored-copy", None)
-            elif rcu != 0:
-                ctx.count("cli:b:undo_failed_other")     # C01's subject
-            else:
-                ctx.count("cli:b:undo_ok")
-                rcr, sor, ser_ = common.cli(["redo", "latest"], t2)
-                info["redo_rc"], info["redo_stderr"] = rcr, ser_.decode("utf-8", "replace")[-300:]
-                if rcr != 0 and is_load_error(ser_):
-                    vb = ("redo-load", known_for_cli(stored_plan_doc(t2), ser_))
-                elif rcr != 0:
-                    ctx.count("cli:b:redo_failed_other")
-                else:
-                    ctx.count("cli:b:redo_ok")
-                    redone = common.snapshot(t2)
-                    if redone != after2:
-                        # redo applies the stored plan copy: it must have the effect the direct command had
-                        info["tree_diff"] = common.snap_diff(after2, redone)
-                        vb = ("redo-tree", None)
+            vb = exercise_stored(ctx, run2, t2, before, after2, info, use_latest, "b")
+        if vb is None and verdict is None and rc1 == 0 and size > 0 and mode != "default":
+            vb = exercise_stored(ctx, run1, t1, before, after1, info, not use_latest, "b1")
         return info, verdict, vb
 
 
@@ -377,52 +460,36 @@ def judge(ctx, info, verdict, where):
                   expected="the saved / stored plan loads and has the effect of the direct command",
                   observed={"kind": kind, "apply_saved_rc": info.get("apply_saved_rc"), "direct_rc": info.get("direct_rc"),
                             "undo_rc": info.get("undo_rc"), "stderr": info.get("apply_saved_stderr") if kind in ("load", "outcome", "tree") else info.get("undo_stderr") or info.get("redo_stderr"),
-                            "stored_copy_problem": info.get("stored_copy_problem"), "tree_diff": info.get("tree_diff")},
+                            "stored_copy_problem": info.get("stored_copy_problem"), "tree_diff": info.get("tree_diff"),
+                            "failing_command": next((c for c in reversed(info.get("sequence", [])) if c["rc"] != 0), None)},
                   note="plan written to disk cannot be read back, or applying it differs from applying directly")
     return False
 
 
-def cli_replace_literal(ctx, rng, term, repl):
-    """`replace --no-regex " term" repl` (empty, or with astral-plane characters), then undo and redo: the stored plan
-    copy must load, and redo (which applies it) must reproduce what the direct command produced"""
-    tree = {"a.txt": ("f", ("keep " + term + " tail\n").encode(), 0o644),
+def cli_replace(ctx, rng, term, pattern, repl, regex, use_latest):
+    """`replace [--no-regex] PATTERN REPL -y` (the planner `create_simple_plan`; empty, non-ASCII and astral-plane
+    replacements; regex with a capture group), then every loader of what it stored: history, status, undo, redo"""
+    tree = {"a.txt": ("f", ("keep " + term + " tail\nsecond " + term + " line\n").encode(), 0o644),
             "é dir": ("d", 0o755), "é dir/b c.txt": ("f", ("x " + term + "\n").encode(), 0o644)}
     with common.scratch() as d:
         common.materialize(d, tree)
         before = common.snapshot(d)
-        rc, so, se = common.cli(["replace", "--no-regex", " " + term, repl, "-y", "--no-auto-init"], d)
+        seq = []
+        run = Runner(d, seq, "t", d)
+        rc, so, se = run(["replace"] + ([] if regex else ["--no-regex"]) + [pattern, repl, "-y", "--no-auto-init"])
         after = common.snapshot(d)
-        info = {"class": "replace_no_regex", "search": " " + term, "replace": repl, "tree": common.snap_digest(before),
-                "replace_rc": rc, "replace_stderr": se.decode("utf-8", "replace")[-300:]}
-        ctx.case(("cli-replace", term, repl))
-        ctx.count("cli:replace_literal")
+        info = {"class": "replace_regex" if regex else "replace_no_regex", "search": pattern, "replace": repl, "term": term,
+                "regex": regex, "use_latest": use_latest,
+                "tree": common.snap_digest(before), "tree_src": tree_src(tree), "replace_rc": rc, "sequence": seq,
+                "replace_stderr": se.decode("utf-8", "replace")[-300:]}
+        ctx.case(("cli-replace", term, pattern, repl, regex))
+        ctx.count("cli:replace:" + ("regex" if regex else "literal"))
         if rc != 0 or after == before:
-            ctx.count("cli:replace_literal:not_applied")
+            ctx.count("cli:replace:not_applied")
+            ctx.notes.append(f"replace not applied ({pattern!r} -> {repl!r}, regex={regex}): exit {rc}: " + info["replace_stderr"][-160:])
             return None
-        prob = stored_copy_problem(stored_plan_doc(d), d, before, after)
-        if prob is not None:
-            info["stored_copy_problem"] = prob
-        rcu, sou, seu = common.cli(["undo", "latest"], d)
-        info["undo_rc"], info["undo_stderr"] = rcu, seu.decode("utf-8", "replace")[-300:]
-        if rcu != 0 and is_load_error(seu):
-            return info, ("undo-load", known_for_cli(stored_plan_doc(d), seu))
-        if prob is not None:
-            return info, ("stored-copy", None)
-        if rcu != 0:
-            ctx.count("cli:replace_literal:undo_failed_other")
-            return None
-        ctx.count("cli:replace_literal:undo_ok")
-        rcr, sor, ser_ = common.cli(["redo", "latest"], d)
-        info["redo_rc"], info["redo_stderr"] = rcr, ser_.decode("utf-8", "replace")[-300:]
-        if rcr != 0 and is_load_error(ser_):
-            return info, ("redo-load", known_for_cli(stored_plan_doc(d), ser_))
-        if rcr == 0:
-            redone = common.snapshot(d)
-            if redone != after:
-                info["tree_diff"] = common.snap_diff(after, redone)
-                return info, ("redo-tree", None)
-            ctx.count("cli:replace_literal:redo_ok")
-        return None
+        v = exercise_stored(ctx, run, d, before, after, info, use_latest, "replace")
+        return (info, v) if v is not None else None
 
 
 def cli_non_utf8(ctx):
@@ -497,6 +564,14 @@ def run(ctx):
         from translate import serde_schema
         schema = serde_schema.extract()
         serde_schema.run()
+        facts = serde_schema.loader_facts(common.REPO)
+        conds = serde_schema.loaders_plain(facts)
+        ctx.cov["loaders"] = {"sites": [f"{f['file']}: fn {f['fn']}: serde_json::{f['api']} -> {f['type']}" for f in facts],
+                              "plain": not conds, "conditions": [f"{a}: fn {b}: if {c}" for a, b, c in conds]}
+        if conds:
+            # the loaders refuse values that parse: the theorem `plan_load_roundtrip_all` no longer applies; the CLI
+            # load matrix below looks for a plan written by the code that the code then refuses
+            ctx.broke("loader", "acceptance condition after parsing a persisted value", ctx.cov["loaders"]["conditions"])
     except Exception as ex:   # a source the translator cannot read is a broken tie
         ctx.broke("translator", "translate/serde_schema.py", repr(ex))
     # 2 prove -----------------------------------------------------------------------------------------
@@ -536,9 +611,9 @@ def run(ctx):
             impl = common.run_impl([req])[0]
             model = common.run_model([req])[0]
             ctx.case(req)
-            if tail(impl) != "de=ok same=1":
+            if tail(impl) != "de=ok same=1 load=ok":
                 ctx.violation("input", {"op": "serde", "request": req, "field": f"{sn}.{fn}"},
-                              expected="de=ok same=1", observed=tail(impl), model_prediction=tail(model),
+                              expected="de=ok same=1 load=ok", observed=tail(impl), model_prediction=tail(model),
                               note=f"{sn}.{fn} is dropped when writing (skip_serializing_if) but not restored when reading; "
                                    "the value with that field skipped does not survive save/load on the real serde")
             else:
@@ -577,9 +652,9 @@ def run(ctx):
             ctx.case(req, nontrivial)
             got = tail(impl)
             ctx.count(f"serde:{which}:" + got.split(":")[0])
-            if got == "de=ok same=1":
+            if got == "de=ok same=1 load=ok":
                 continue
-            ctx.violation("input", {"op": "serde", "request": req, "value": v}, expected="de=ok same=1", observed=got,
+            ctx.violation("input", {"op": "serde", "request": req, "value": v}, expected="de=ok same=1 load=ok", observed=got,
                           model_prediction=tail(model) if model else None,
                           note="a generated value written by write_plan / History::save does not load back to the same value")
             break      # one in-process counterexample is enough; go on to see whether the CLI reaches it
@@ -589,7 +664,7 @@ def run(ctx):
     per_class = 30 if ctx.thorough else 6
     for i in range(N_CLASSES * per_class):
         case = gen_cli_case(rng, i)
-        r = cli_saved_vs_direct(ctx, case)
+        r = cli_saved_vs_direct(ctx, case, mode=LOAD_MODES[(i // N_CLASSES) % 3], use_latest=(i // N_CLASSES) % 2 == 0)
         if r is None:
             continue
         info, va, vb = r
@@ -598,12 +673,17 @@ def run(ctx):
         for v, where in ((va, "apply saved plan vs direct"), (vb, "stored plan copy (undo/redo)")):
             if v is not None and not judge(ctx, info, v, where):
                 return
-    lits = [("foo_bar", ""), ("日本", ""), ("foo_bar", " \U0001F600x"), ("日本", " \U0001D4B3\U0001F680")]
+    # (term in the files, pattern, replacement, regex?)
+    reps = [("foo_bar", " foo_bar", "", False), ("日本", " 日本", "", False), ("foo_bar", " foo_bar", " \U0001F600x", False),
+            ("日本", " 日本", " \U0001D4B3\U0001F680", False), ("foo_bar", "fo+_(bar)", "baz_$1", True),
+            ("foo_bar", " foo_bar", " qux", False), ("fooBar", "foo(B)ar", "é$1\U0001F600", True)]
     if ctx.thorough:
-        lits += [("fooBar", ""), ("x", ""), ("foo_bar", " é\U00010348"), ("\U0001F600", " y")]
-    for term, repl in lits:
-        r = cli_replace_literal(ctx, rng, term, repl)
-        if r is not None and not judge(ctx, r[0], r[1], "replace --no-regex, then undo / redo of the stored plan copy"):
+        reps += [("fooBar", " fooBar", "", False), ("x", " x", "", False), ("foo_bar", " foo_bar", " é\U00010348", False),
+                 ("\U0001F600", " \U0001F600", " y", False), ("foo_bar", "fo{2}_bar", "", True), ("日本", "日(本)", "$1$1", True),
+                 ("foo.bar", "foo\\.bar", "foo-bar", True)]
+    for n, (term, pattern, repl, regex) in enumerate(reps):
+        r = cli_replace(ctx, rng, term, pattern, repl, regex, use_latest=n % 2 == 0)
+        if r is not None and not judge(ctx, r[0], r[1], "replace, then history / status / undo / redo of what it stored"):
             return
     cli_non_utf8(ctx)
 
@@ -647,16 +727,23 @@ def replay(ctx, path):
         impl = common.run_impl([case["request"]])[0]
         model = common.run_model([case["request"]])[0] if os.path.exists(common.RMODEL_BIN) else ""
         print("impl :", tail(impl)); print("model:", tail(model))
-        if tail(impl) != "de=ok same=1":
+        if tail(impl) != "de=ok same=1 load=ok":
             alt = None
             if "value" in case and isinstance(case["value"], dict) and "matches" in case["value"]:
                 alt, field = expected_outcomes(case["value"])
             if not (alt and tail(impl) == alt and ctx.known("empty_replace_undo" if "7265706c616365" in alt else "empty_new_path")):
-                ctx.violation("input", case, expected="de=ok same=1", observed=tail(impl), model_prediction=tail(model))
+                ctx.violation("input", case, expected="de=ok same=1 load=ok", observed=tail(impl), model_prediction=tail(model))
+    elif isinstance(case, dict) and case.get("op") == "cli" and str(case.get("class", "")).startswith("replace_"):
+        r = cli_replace(ctx, ctx.rng, case["term"], case["search"], case["replace"], case["regex"], case["use_latest"])
+        if r is None:
+            print("no longer reproduces: replace, history, status, undo, redo all accepted what was stored")
+        else:
+            print(json.dumps(r[0]["sequence"], indent=1, ensure_ascii=False)[:2500])
+            judge(ctx, r[0], r[1], case.get("where", "replace, then the loaders"))
     elif isinstance(case, dict) and case.get("op") == "cli" and "tree_src" in case:
         c = {"class": case["class"], "search": case["search"], "replace": case["replace"], "path_arg": case.get("path_arg"),
              "tree": tree_of_src(case["tree_src"])}
-        r = cli_saved_vs_direct(ctx, c)
+        r = cli_saved_vs_direct(ctx, c, mode=case.get("load_mode", "file"))
         if r is None:
             print("plan failed")
             return
